@@ -59,7 +59,11 @@ _PER = {'quick': 3, 'thorough': 6}
 # callbacks, emulated call stack) on a universe with two leaf symbols
 _MORE = {'C01:incl': [AB(1, 2, [0, 0, 1], SEL=s) for s in range(8)] +
                      # address-keyed memo tables and their invalidation: the same code under the heap model that reuses released addresses
-                     [AB(1, 2, [0, 2], SEL=s, _reuse=1) for s in (0, 2, 4, 6)] + [AB(2, 2, [0, 1], SEL=s, _reuse=1) for s in (1, 3, 5, 7)],
+                     [AB(1, 2, [0, 2], SEL=s, _reuse=1) for s in (0, 2, 4, 6)] + [AB(2, 2, [0, 1], SEL=s, _reuse=1) for s in (1, 3, 5, 7)] +
+                     # the selections with a downward simulation called on operands that were NOT sanitised (states without rules, useless states;
+                     # disjoint dense numbering done by the caller): 2+2 over {a/0,f/1} and a 2+4 sub-universe over {a/0,b/0,f/1} in which B has
+                     # rule-less final states behind its last rule-owning state (third red-team round: index guards one past the end)
+                     [AB(2, 2, [0, 1], SEL=s, DIRECT=2) for s in (3, 5, 7)] + [AB(2, 4, [0, 0, 1], SEL=s, DIRECT=2, AMASK='0xc7ul', BMASK='0x470023ul') for s in (3, 5)],
          # the simulation engine with more than 64 blocks (word boundary of its per-block bit masks)
          'C16:lts': [{'NQ': 2, 'NL': 1, 'MODE': 0, 'FILL': 67, 'FILLCHAIN': None}]}
 for _f in sorted(glob.glob(os.path.join(_here, '*.py'))):
@@ -90,7 +94,7 @@ CHECKS = {
   'val_runs': {'quick': 2, 'thorough': 6},   # every harness is validated with 12/40 runs in its own property's check
   'pre_cmd': 'sh engine/tests/run.sh',     # engine regression tests: 22 tiny C programs with known verdicts (detectors, merges, pointer provenance)
   'explanation': 'Memory-safety and undefined-behaviour obligations checked by the symbolic engine on the real code of the other properties\' harnesses (property assertions disabled with -DVS_NO_PROPERTY), i.e. on every automaton / history / diagram of those universes: null, dangling-stack, freed and out-of-bounds loads and stores; free of non-heap or interior pointers; double free; new/delete[]/free mismatch; division by zero; shift >= width; signed overflow of nsw arithmetic; a branch, switch, address or size that depends on uninitialised memory; abort/terminate/failed libstdc++ assertion; unexpected exception; reaching LLVM unreachable; indirect call to a non-function.  A self-test harness plants a heap overflow, a use after free, a branch on uninitialised memory and a double free behind input-dependent conditions; each must be reported and must reproduce on the native ASan/UBSan (valgrind for the uninitialised read) twin.  Harnesses re-run: ' + ', '.join(_covered),
-  'bounds': {'quick': 'up to 3 queries per harness of every other claimed property (from their quick universes); plus: all 8 selections of the explicit inclusion checker on 1+2 over {a/0,b/0,f/1}, 8 of its queries under the heap model that reuses released addresses, the simulation engine with 67 chain-shaped filler states, the upward simulation on every (also untrimmed) automaton over 3 x {a/0,f/1}, the finite-automata simulation entry points, and 65 queries that call the rarely used public entry points of the four automaton classes and ExplicitLTS one by one (api_misc: default-parameter CheckInclusion, AddTransition(Transition), BuildStateIndex, Reduce(ReduceParam), ToString, every LoadFromString / LoadFromAutDesc / DumpToString / DumpToAutDesc overload, SetExistingStateStart, AddTransition with SymbolicVarAsgn cubes, GetCandidateTree, GetTransMTBDDForTuple, move construction, iterator copies, computeSimulation())', 'thorough': 'up to 6 queries per harness (their thorough universes)'},
+  'bounds': {'quick': 'up to 3 queries per harness of every other claimed property (from their quick universes); plus: all 8 selections of the explicit inclusion checker on 1+2 over {a/0,b/0,f/1}, the selections with a downward simulation called on operands that were not sanitised (2+2 over {a/0,f/1}; a 2+4 sub-universe over {a/0,b/0,f/1} with rule-less final states behind the last rule-owning state; an exception of the library is accepted, a memory error is not), 8 of its queries under the heap model that reuses released addresses, the simulation engine with 67 chain-shaped filler states, the upward simulation on every (also untrimmed) automaton over 3 x {a/0,f/1}, the finite-automata simulation entry points, and 65 queries that call the rarely used public entry points of the four automaton classes and ExplicitLTS one by one (api_misc: default-parameter CheckInclusion, AddTransition(Transition), BuildStateIndex, Reduce(ReduceParam), ToString, every LoadFromString / LoadFromAutDesc / DumpToString / DumpToAutDesc overload, SetExistingStateStart, AddTransition with SymbolicVarAsgn cubes, GetCandidateTree, GetTransMTBDDForTuple, move construction, iterator copies, computeSimulation())', 'thorough': 'up to 6 queries per harness (their thorough universes)'},
   'outside': 'code not reached by any harness (per-file list in DESIGN.md); behaviours that need a particular malloc address pattern, container reallocation order or rehash beyond the sizes reached; bit-precise definedness; data races; allocation failure',
   'assumptions': ['the uninitialised-memory check is value-based: a value that provably does not influence the branch/address is not reported'],
   'harnesses': _harn,
